@@ -325,7 +325,9 @@ def trig_paused_items_task_done(sess, upto=None):
             # the paused row of the task table accepts no item event: neither a completion nor a resume of the item
             # that was paused or pending is taken into account, so the task stays paused with no item dormant
             if items and key in st["tasks"] and st["sequence"][st["tasks"][key]].get("status") == "paused" \
-                    and not any(x in ("paused", "pending") for x in items):
+                    and (not any(x in ("paused", "pending") for x in items)
+                         or any(x in ("running", "resuming", "requested", "scheduled", "delayed", "pausing", "canceling")
+                                for x in items)):
                 return True
     return False
 
